@@ -90,7 +90,7 @@ def afm_names():
 
 def afm_attr_names():
     base = st.builds(lambda a, b: a + b, st.sampled_from(string.ascii_lowercase),
-                     st.text(alphabet=string.ascii_letters + string.digits, max_size=5))
+                     st.text(alphabet=string.ascii_lowercase + string.digits, max_size=5))
     return base.map(lambda s: s + "q" if s in AFM_LOWER_KEYWORDS else s)
 
 
@@ -346,3 +346,39 @@ def _fide_ctc(draw, names, feats):
 
 FEATUREIDE = Profile(xml_names(), single=("mandatory", "optional"), group=("alternative", "or"),
                      layout="one_group", abstract=True, ctc_max=6, ctc_expr=_fide_ctc)
+
+
+# ------------------------------------------------------------------ AFM
+def afm_value_specs():
+    word = afm_names()
+    lower = afm_attr_names()
+    ints = st.integers(0, 10**6).map(str)
+    dbl = st.builds(lambda a, b: f"{a}.{b}", st.integers(1, 999), st.text(alphabet=string.digits, min_size=1, max_size=3))
+    strs = st.text(alphabet=st.sampled_from(string.ascii_letters + string.digits + " _-+*/.,:;()[]{}<>=!?#%&'|@^~\\"),
+                   max_size=6).map(lambda s: '"' + s + '"')
+    return st.one_of(word, lower, ints, dbl, strs, st.sampled_from(['"é ñ"', '"日本"']))
+
+
+def _afm_attrs(draw, fname):
+    if draw(st.integers(0, 2)):
+        return []
+    out = []
+    for an in draw(st.lists(afm_attr_names(), min_size=1, max_size=2, unique=True)):
+        if draw(st.booleans()):
+            ranges = []
+            for _ in range(draw(st.integers(1, 3))):
+                lo = draw(st.integers(0, 1000))
+                ranges.append([lo, lo + draw(st.integers(0, 1000))])
+            out.append({"name": an, "ranges": ranges, "elements": None,
+                        "default": str(draw(st.integers(0, 2000))), "null": str(draw(st.integers(0, 2000)))})
+        else:
+            els = draw(st.lists(afm_value_specs(), min_size=1, max_size=4))
+            out.append({"name": an, "ranges": None, "elements": els,
+                        "default": draw(st.one_of(st.sampled_from(els), afm_value_specs())),
+                        "null": draw(afm_value_specs())})
+    return out
+
+
+AFM_OPS = ("NOT", "AND", "OR", "IMPLIES", "EQUIVALENCE", "REQUIRES", "EXCLUDES")
+AFM = Profile(afm_names(), single=("mandatory", "optional"), group=("card", "card", "alternative", "or", "mutex"),
+              layout="free", abstract=False, attrs=_afm_attrs, ctc_ops=AFM_OPS, ctc_depth=5, ctc_max=4)
